@@ -146,6 +146,9 @@ func (r *run) firstH(c context.Context, ctx *app.RequestContext) {
 			panic(p) // the recovery middleware is the one that handles it
 		}
 	}()
+	if r.c.Rich {
+		richOriginal(ctx)
+	}
 	for _, m := range r.c.Pre {
 		r.emit("Pre", vtrace.Rec{"m": m})
 		byName[m].f(e)
@@ -249,6 +252,9 @@ func (r *run) freshCase() {
 	c := context.Background()
 	r.emit("Enter", vtrace.Rec{"ptr": fmt.Sprintf("%p", ctx)})
 	e := &env{c: c, ctx: ctx, files: r.w.files}
+	if r.c.Rich {
+		richOriginal(ctx)
+	}
 	for _, m := range r.c.Pre {
 		r.emit("Pre", vtrace.Rec{"m": m})
 		byName[m].f(e)
